@@ -282,6 +282,8 @@ class AccfgGen:
         if self.p.get("multiblock") and self.r.random() < self.p["multiblock"]:
             # unstructured control flow behind the body: entry -> (b0 ? bb1 : bb2); bb1 -> bb2; bb2 -> return
             ast["blocks"] = [self.stmts(self.r.randint(1, 2), list(scope), 0, False), self.stmts(self.r.randint(1, 3), list(scope), 0, False)]
+            if self.r.random() < 0.5:
+                ast["cfg_loop"] = self.r.choice(["%n0", "%n1", "%n2"])  # ^bb1 is the body of a do-while loop written with cf.cond_br (1 .. n trips)
         if self.p.get("memory"):
             ast["memory"] = True
         return ast
@@ -542,7 +544,16 @@ def emit(ast, acc_names=None, vty="i32", decls=()) -> str:
     for nm, v in sorted(ast.get("extra_consts", {}).items()):
         e(2, f"{nm} = arith.constant {v} : {vty}")
     stmts(2, ast["body"])
-    if ast.get("blocks"):
+    if ast.get("blocks") and ast.get("cfg_loop"):
+        e(2, "cf.br ^bb1(%c0 : index)")
+        e(1, "^bb1(%cfk : index):")
+        stmts(2, ast["blocks"][0])
+        e(2, "%cfk1 = arith.addi %cfk, %c1 : index")
+        e(2, f'%cfc = arith.cmpi slt, %cfk1, {ast["cfg_loop"]} : index')
+        e(2, "cf.cond_br %cfc, ^bb1(%cfk1 : index), ^bb2")
+        e(1, "^bb2:")
+        stmts(2, ast["blocks"][1])
+    elif ast.get("blocks"):
         e(2, "cf.cond_br %b0, ^bb1, ^bb2")
         e(1, "^bb1:")
         stmts(2, ast["blocks"][0])
@@ -640,8 +651,10 @@ def shrink_body(body):
 def shrink_ast(ast):
     for nb in shrink_body(ast["body"]):
         yield dict(ast, body=nb)
+    if ast.get("cfg_loop"):
+        yield {k: v for k, v in ast.items() if k != "cfg_loop"}
     if ast.get("blocks"):
-        yield {k: v for k, v in ast.items() if k != "blocks"}
+        yield {k: v for k, v in ast.items() if k not in ("blocks", "cfg_loop")}
         for j in (0, 1):
             for nb in shrink_body(ast["blocks"][j]):
                 yield dict(ast, blocks=[nb if i == j else b for i, b in enumerate(ast["blocks"])])
